@@ -103,7 +103,6 @@ func callDoesNotReturn(dir int, age time.Duration) {
 	doc, _ := json.MarshalIndent(map[string]interface{}{"property": "C11", "check": w.check, "sig": sig, "msg": msg, "case": json.RawMessage(raw)}, "", " ")
 	os.WriteFile(filepath.Join(kit.OutDir(), fmt.Sprintf("current-%d.json", kit.Shard())), doc, 0o644)
 	if rp := os.Getenv("VERIF_REPLAY"); rp != "" {
-		fmt.Printf("KNOWN-FINDING-CHECK: %s\n", sig)
 		if !kit.Known(sig) {
 			fmt.Printf("VIOLATION property=C11 replay=%s\n", rp)
 		}
